@@ -9,6 +9,7 @@ import CatiiProofs.Queries
 import CatiiProofs.FromArrayWf
 import CatiiProofs.ColumnStack
 import CatiiProofs.Reindexed
+import CatiiProofs.Sliced
 /-!
 # C06 — index operations track NumPy on the dense array over any history
 
@@ -19,11 +20,11 @@ far are `copy`, `shift_common()` / `shift_common(v)` (identity on the dense arra
 row counts incl. 0, while the combined rows fit 32 bits), `filtered(mask, n)` (boolean row selection, any
 mask), `update(entries)` (cell assignment by any consistent dictionary of cells, incl. cells set to the
 common value), `reindexed(mapping)` (element-wise value mapping: injective, many-to-one, onto the common value,
-or the default), the three entry-wise set updates (through the verified kernels of C08), the forced queries `get(key, force=True)` /
+or the default), `sliced(*orders)` (column selection, any number of axes), the three entry-wise set updates (through the verified kernels of C08), the forced queries `get(key, force=True)` /
 `common_rowids`, `column_stack` (= `numpy.column_stack`, any mix of inputs and commons) and construction from
 arrays (C01);
 `history_partial` lifts them to arbitrary finite sequences against a NumPy-side specification
-(`specRun`).  The remaining operations of the property (sliced, slices1d, collapsed,
+(`specRun`).  The remaining operations of the property (slices1d — see C13 —, collapsed,
 `items`/`to_dict(force=True)`) are modelled in `CatiiModel/IIndex.lean` statement by statement and are tied to
 the real code by the correspondence harness after **every** step of every generated history,
 with the NumPy reference semantics as the oracle on the real code; their refinement lemmas are
@@ -256,6 +257,18 @@ theorem reindexed_default_mapping (i : IIndex) (h : WF i) (hnd : i.ndim ≤ 2) (
     WF res ∧ res.shape = i.shape ∧ ∀ r < i.nrows, ∀ hi ∈ hiCells (i.shape.drop 1),
       denseAt res r hi = reVal (reMapping i none) (denseAt i r hi) :=
   reindexed_refines i h hnd none shift res hr
+
+/-! ### sliced -/
+
+/-- `sliced(*orders)` is column selection in the requested order, for any number of axes (1-D … n-D): cell
+`hi'` of the result is cell `unslice orders hi'` of the receiver (`None` keeps an axis, an int fixes and drops
+it, an order list selects / re-orders) -/
+theorem sliced_is_take (i : IIndex) (orders : List Order) (ok : SliceOK i orders) :
+    ∃ res, sliced i orders = .ok res ∧ WF res ∧ res.shape = i.nrows :: sliceTail orders (i.shape.drop 1) ∧
+      res.common = i.common ∧
+      ∀ r, ∀ hi' ∈ hiCells (sliceTail orders (i.shape.drop 1)),
+        denseAt res r hi' = denseAt i r (unslice orders hi') :=
+  sliced_refines ok
 
 /-! ### column_stack -/
 
